@@ -13,6 +13,7 @@ import (
 	"crypto/x509/pkix"
 	"fmt"
 	"math/big"
+	mrand "math/rand/v2"
 	"net"
 	"time"
 
@@ -176,9 +177,19 @@ type EpSpec struct {
 
 // Env carries the run-time objects a spec refers to by name.
 type Env struct {
-	Stores map[string]dtls.SessionStore
-	Extra  map[string][]dtls.Option // extra options by endpoint name (hooks etc.)
-	Sim    *Sim
+	Stores  map[string]dtls.SessionStore
+	Extra   map[string][]dtls.Option // extra options by endpoint name (hooks etc.)
+	Sim     *Sim
+	Loggers map[string]*simLoggerFactory
+}
+
+// FSMState returns the last "<flight>/<state>" the endpoint's handshake FSM traced.
+func (e *Env) FSMState(name string) string {
+	if e == nil || e.Loggers[name] == nil || e.Loggers[name].fsm == "" {
+		return "no-fsm"
+	}
+
+	return e.Loggers[name].fsm
 }
 
 func ver(v int) protocol.Version {
@@ -304,8 +315,13 @@ func (e EpSpec) Options(server bool, env *Env, name string) (copts []dtls.Client
 	}
 	if env != nil {
 		shared = append(shared, env.Extra[name]...)
-		if LibLog && env.Sim != nil {
-			add(dtls.WithLoggerFactory(&simLoggerFactory{s: env.Sim, name: name}))
+		if env.Sim != nil {
+			lf := &simLoggerFactory{s: env.Sim, name: name}
+			if env.Loggers == nil {
+				env.Loggers = map[string]*simLoggerFactory{}
+			}
+			env.Loggers[name] = lf
+			add(dtls.WithLoggerFactory(lf))
 		}
 	}
 	for _, o := range shared {
@@ -346,6 +362,7 @@ type Pair struct {
 	cancel   []context.CancelFunc
 	CName    string
 	SName    string
+	Env      *Env
 }
 
 // NewPair creates sockets and both Conns (no handshake yet).
@@ -359,7 +376,7 @@ func NewPairNamed(s *Sim, n *SimNet, cs, ss EpSpec, env *Env, cname, sname strin
 		env = &Env{}
 	}
 	env.Sim = s
-	p := &Pair{S: s, Net: n, CSpec: cs, SSpec: ss, CAddr: Addr(1, 5000), SAddr: Addr(2, 4444), CName: cname, SName: sname}
+	p := &Pair{S: s, Net: n, CSpec: cs, SSpec: ss, CAddr: Addr(1, 5000), SAddr: Addr(2, 4444), CName: cname, SName: sname, Env: env}
 	p.CSock = n.NewConn(cname, p.CAddr)
 	p.SSock = n.NewConn(sname, p.SAddr)
 	copts, _, err := cs.Options(false, env, cname)
@@ -392,17 +409,25 @@ func (p *Pair) StartHandshakes(timeout time.Duration) {
 		return ctx
 	}
 	cctx, sctx := mk(), mk()
+	// The two endpoints must not arm their first retransmission timers at the
+	// same virtual instant: the order in which the runtime fires timers that
+	// tie depends on process history, which would break exact replay.
+	off := p.S.Ch.Draw("start", func(r *mrand.Rand) Dec { return Dec{C: 1 + r.Int64N(999_983)} })
+	p.S.After(time.Duration(off.C)*time.Nanosecond, func() { p.startClientHandshake(cctx) })
+	p.S.Go(p.SName+"-handshake", func() {
+		p.S.Record("op-call", p.SName, "HandshakeContext", nil)
+		err := p.Server.HandshakeContext(sctx)
+		seq := p.S.Record("op-ret", p.SName, fmt.Sprintf("HandshakeContext err=%v", err), nil)
+		p.SHs = HsResult{Done: true, Err: err, At: p.S.Now(), Seq: seq}
+	})
+}
+
+func (p *Pair) startClientHandshake(cctx context.Context) {
 	p.S.Go("c-handshake", func() {
 		p.S.Record("op-call", p.CName, "HandshakeContext", nil)
 		err := p.Client.HandshakeContext(cctx)
 		seq := p.S.Record("op-ret", p.CName, fmt.Sprintf("HandshakeContext err=%v", err), nil)
 		p.CHs = HsResult{Done: true, Err: err, At: p.S.Now(), Seq: seq}
-	})
-	p.S.Go("s-handshake", func() {
-		p.S.Record("op-call", p.SName, "HandshakeContext", nil)
-		err := p.Server.HandshakeContext(sctx)
-		seq := p.S.Record("op-ret", p.SName, fmt.Sprintf("HandshakeContext err=%v", err), nil)
-		p.SHs = HsResult{Done: true, Err: err, At: p.S.Now(), Seq: seq}
 	})
 }
 
